@@ -13,6 +13,7 @@ from fractions import Fraction as F
 
 import analysis
 import common
+import reuse
 from analysis import CELLS, FIELDS, NAMES, make_case, real_analyze, run_cases, same
 from common import Check, Driver, table_wire
 from props.c14 import parse_aggr
@@ -247,6 +248,7 @@ def main():
     consequences(chk, cases[:: 2 if chk.tier == "quick" else 1])
     float_zero_linearised(chk, 12 if chk.tier == "quick" else 120)
     float_other_variants(chk, 12 if chk.tier == "quick" else 120)
+    reuse.metric_object_reuse(chk, 12 if chk.tier == "quick" else 120, "the adjustment must be the one of the data at hand")
     float_affine(chk, 12 if chk.tier == "quick" else 96)
     chk.cov["rule"] = ("random rational data sets (2..28 rows per variant, balanced and 1:many), metric kinds "
                        "Mean+covariate / ratio+numerator covariate / ratio+ratio covariate, covariate modes "
